@@ -254,8 +254,37 @@ def x2(model: Model, rep: Report):
     ev = Evaluator(model, inline_methods=False)
     v = ev.value_of(f, self_cls=C)
     s, e = sym(f.self_name), sym([p for p in f.param_names if p != f.self_name][0])
-    parts = {("call", ("attr", s, g), (), (("element", e),)) for g in ("get_heralded_measurement_index", "get_ordered_stabilizer_measurement_indices", "get_final_measurement_index")}
-    ok = v[0] == "call" and v[1] == "sorted" and len(v[2]) == 1 and set(as_lin(v[2][0])[0].keys()) == parts and all(c == 1 for c in as_lin(v[2][0])[0].values())
+    want_parts = sorted(("get_heralded_measurement_index", "get_ordered_stabilizer_measurement_indices", "get_final_measurement_index"))
+
+    def pieces(t):
+        """the list-valued pieces a concatenation is made of: a + b + c, chain / flat-map over a display of (bound) getters, nested comprehension over such a display"""
+        from .common import devar
+        t = devar(t)
+        if t[0] == "concat":
+            return [y for x in t[1] for y in pieces(x)]
+        if t[0] == "lin" and all(c == 1 for _, c in t[1]) and t[2] == 0 and t[1]:
+            return [y for a, _ in t[1] for y in pieces(a)]
+        if t[0] == "comp" and len(t[3]) == 2 and not t[3][0][1] and not t[3][1][1] and devar(t[3][0][0])[0] in ("tuple", "list") and t[2][0] == "bound":
+            outer_items = devar(t[3][0][0])[1]
+            ob = [y for y in subterms(t[3][1][0], lambda y: y[0] == "bound" and y != t[2])]
+            if len(ob) == 1 and t[2][3] == show(t[3][1][0]):
+                return [y for it in outer_items for y in pieces(subst(t[3][1][0], {ob[0]: it}))]
+        if t[0] == "call" and t[1] in (("attr", ("global", "chain"), "from_iterable"), ("attr", ("attr", ("global", "itertools"), "chain"), "from_iterable")) and len(t[2]) == 1:
+            inner = devar(t[2][0])
+            if inner[0] in ("tuple", "list"):
+                return [y for x in inner[1] for y in pieces(x)]
+            if inner[0] == "comp" and len(inner[3]) == 1 and not inner[3][0][1] and devar(inner[3][0][0])[0] in ("tuple", "list"):
+                bs = subterms(inner[2], lambda y: y[0] == "bound")
+                return [y for it in devar(inner[3][0][0])[1] for y in pieces(subst(inner[2], {b_: it for b_ in bs}))]
+        if t[0] == "call" and t[1] in (("global", "chain"), ("attr", ("global", "itertools"), "chain")):
+            return [y for x in t[2] for y in pieces(x)]
+        return [t]
+
+    def getter_of(t):
+        if t[0] == "call" and isinstance(t[1], tuple) and t[1][0] == "attr" and t[1][1] == s and (list(t[2]) + [x for _, x in t[3]]) == [e]:
+            return t[1][2]
+        return "?" + show(t)[:40]
+    ok = v[0] == "call" and v[1] == "sorted" and len(v[2]) == 1 and sorted(getter_of(x) for x in pieces(v[2][0])) == want_parts
     rep.check(ok, "C12.X2", "RepetitionIndexKernel.contains", f.loc, found=show(v), required="sorted(heralded + stabiliser + final)", what="contains() is not the union of the categories", detail="contains")
 
 
